@@ -7,46 +7,78 @@ tables, R4 the group set-up protonates the atoms the count assumes.
 import ast
 import math
 
-from sa.astutil import (anorm, call_name, calls_in, dotted, norm, walk_no_nested, last_attr,
-                        fact_texts, try_fold, literal, FoldError)
+from sa.astutil import (str_template, anorm, call_name, calls_in, dotted, norm, walk_no_nested, last_attr,
+                        fact_texts, facts_at, func_params, format_fields, try_fold, literal, FoldError)
+from sa.canon import canon
+from checks import common
 from sa.consteval import eval_init, UNKNOWN
 from sa.loader import AnalysisError
 from sa.tables import module_constants
 
 
-def counter_terms(fn, attr):
-    """Ordered (op, term text) list of the updates of ``atom.<attr>``."""
-    terms = []
-    for s in fn.body:
-        for node in ([s] if isinstance(s, (ast.Assign, ast.AugAssign)) else []):
-            tgt = node.targets[0] if isinstance(node, ast.Assign) else node.target
-            if isinstance(tgt, ast.Attribute) and tgt.attr == attr:
-                if isinstance(node, ast.Assign):
-                    terms.append(('=', norm(node.value), node))
-                else:
-                    terms.append(('+' if isinstance(node.op, ast.Add) else
-                                  '-' if isinstance(node.op, ast.Sub) else '?',
-                                  norm(node.value), node))
-    return terms
+def linform(expr, classify):
+    """Linear form of an arithmetic expression: {kind: coefficient}; atoms are
+    classified by ``classify(node) -> kind or None``.  Returns None when the
+    expression is not linear in recognised atoms (the offending node's text is
+    stored under the key '?')."""
+    form = {}
+
+    def add(node, sign):
+        if isinstance(node, ast.BinOp) and isinstance(node.op, (ast.Add, ast.Sub)):
+            add(node.left, sign)
+            add(node.right, sign if isinstance(node.op, ast.Add) else -sign)
+            return
+        if isinstance(node, ast.UnaryOp) and isinstance(node.op, (ast.USub, ast.UAdd)):
+            add(node.operand, -sign if isinstance(node.op, ast.USub) else sign)
+            return
+        if isinstance(node, ast.Constant) and isinstance(node.value, (int, float)) \
+                and not isinstance(node.value, bool):
+            form['1'] = form.get('1', 0) + sign * node.value
+            return
+        kind = classify(node)
+        if kind is None:
+            form.setdefault('?', []).append(norm(node))
+            return
+        form[kind] = form.get(kind, 0) + sign
+    add(expr, 1)
+    return {k: v for k, v in form.items() if v != 0}
 
 
-def eval_term(text, env):
-    table = {
-        'self.valence_electrons[atom.element]': env['valence'],
-        'len(atom.bonded_atoms)': env['nbonds'],
-        'atom.num_pi_elec_2_3_bonds': env['pi23'],
-        'atom.num_pi_elec_conj_2_3_bonds': env['conj'],
-        'int(atom.charge)': int(env['charge']),
-        'atom.charge': env['charge'],
-        'atom.number_of_protons_to_add': env.get('protons'),
-        'atom.steric_number': env.get('steric'),
-    }
-    if text in table and table[text] is not None:
-        return table[text]
-    try:
-        return float(text) if '.' in text else int(text)
-    except ValueError:
-        raise AnalysisError('C17.R3: unknown term in the electron count: ' + text)
+def count_atom_kind(param):
+    """Classifier for the atoms of the electron-count formulas of ``param``."""
+    def classify(node):
+        text = norm(node)
+        if isinstance(node, ast.Subscript) and isinstance(node.value, ast.Attribute) \
+                and node.value.attr == 'valence_electrons' and norm(node.slice) == param + '.element':
+            return 'valence'
+        if text == 'len(%s.bonded_atoms)' % param:
+            return 'bonds'
+        if text == '%s.num_pi_elec_2_3_bonds' % param:
+            return 'pi23'
+        if text == '%s.num_pi_elec_conj_2_3_bonds' % param:
+            return 'conj'
+        if text == 'int(%s.charge)' % param:
+            return 'intcharge'
+        if text == '%s.charge' % param:
+            return 'charge'
+        if text == '%s.number_of_protons_to_add' % param:
+            return 'protons'
+        return None
+    return classify
+
+
+def eval_form(form, env):
+    total = 0
+    for kind, coef in form.items():
+        val = 1 if kind == '1' else env[kind]
+        total += coef * val
+    return total
+
+
+def mult_operands(node):
+    if isinstance(node, ast.BinOp) and isinstance(node.op, ast.Mult):
+        return sorted([norm(node.left), norm(node.right)])
+    return None
 
 
 def run(ctx):
@@ -56,53 +88,62 @@ def run(ctx):
     penv = eval_init(prog, 'protonate', 'Protonate')
     benv = eval_init(prog, 'bonds', 'BondMaker')
 
+    def params_of(fn):
+        return [p for p in func_params(fn) if p != 'self']
+
     # ------------------------------------------------------------------ R1
     n_calls = 0
+    sbd = pmod.func('Protonate.set_bond_distance')
     for qual in ('Protonate.trigonal', 'Protonate.tetrahedral'):
         fn = pmod.func(qual)
-        cvec = [s for s in walk_no_nested(fn) if isinstance(s, ast.Assign)
-                and norm(s.value) == 'Vector(atom1=atom)']
-        cname = norm(cvec[0].targets[0]) if cvec else None
+        can = canon(fn)
+        atom = params_of(fn)[0]
+        seen = {}
         for c in calls_in(fn, nested=False):
             if last_attr(c) != 'add_proton':
                 continue
             n_calls += 1
-            pos = c.args[1] if len(c.args) == 2 else None
+            exp = can.expr(c)
             ok, why = False, 'unexpected argument shape'
-            if norm(c.args[0]) == 'atom' and isinstance(pos, ast.BinOp) and isinstance(pos.op, ast.Add):
-                parts = [norm(pos.left), norm(pos.right)]
-                if cname in parts:
-                    v = [p for p in parts if p != cname][0]
-                    # nearest preceding definition of v in the same block
-                    stmt = c._parent
-                    blk = stmt._parent
-                    body = blk.body if stmt in getattr(blk, 'body', []) else getattr(blk, 'orelse', [])
-                    idx = body.index(stmt)
-                    prev = [s for s in body[:idx] if isinstance(s, ast.Assign) and norm(s.targets[0]) == v]
-                    if prev:
-                        last = prev[-1].value
-                        ok = isinstance(last, ast.Call) and last_attr(last) == 'set_bond_distance' \
-                            and len(last.args) == 2 and norm(last.args[1]) == 'atom.element'
-                        why = 'displacement %s = %s' % (v, norm(last)[:60])
-                    else:
-                        why = 'no definition of %s before the call' % v
+            if len(exp.args) == 2 and norm(exp.args[0]) == atom and isinstance(exp.args[1], ast.BinOp) \
+                    and isinstance(exp.args[1].op, ast.Add):
+                sides = [exp.args[1].left, exp.args[1].right]
+                origin = [x for x in sides if norm(x) == 'Vector(atom1=%s)' % atom]
+                disp = [x for x in sides if isinstance(x, ast.Call) and last_attr(x) == sbd.name]
+                if len(origin) == 1 and len(disp) == 1:
+                    d = disp[0]
+                    ok = len(d.args) == 2 and norm(d.args[1]) == atom + '.element'
+                    why = 'displacement = %s(..., %s)' % (sbd.name, norm(d.args[1]) if len(d.args) == 2 else '?')
                 else:
-                    why = 'position is not Vector(atom1=atom) + displacement'
-            pkey = 'position:%s:%s' % (qual, anorm(c, fn)[:50])
-            dup = sum(1 for o in ctx.obligations if o['key'].split('#')[0] == pkey)
-            if dup:
-                pkey += '#%d' % (dup + 1)
+                    why = 'position is not Vector(atom1=%s) + %s(...)' % (atom, sbd.name)
+            base = 'position:%s:%s' % (qual, anorm(c, fn)[:50])
+            seen[base] = seen.get(base, 0) + 1
+            pkey = base if seen[base] == 1 else base + '#%d' % seen[base]
             ctx.ob('C17.R1', pkey, ok,
                    'the hydrogen is placed at the parent position plus a vector rescaled to the '
                    'tabulated X-H bond length of the parent element (%s)' % why, pmod, c)
     ctx.need('C17.R1', 5)
-    sbd = pmod.func('Protonate.set_bond_distance')
-    src = norm(sbd)
-    ok = 'dist = self.bond_lengths[element]' in src and 'bvec = bvec.rescale(dist)' in src and \
-        'return bvec' in src and 'dist = 1.0' in src
+    can = canon(sbd)
+    bvec_p, elem_p = params_of(sbd)[:2]
+    rets = [r for r in walk_no_nested(sbd) if isinstance(r, ast.Return) and r.value is not None]
+    ok = bool(rets)
+    found = []
+    for r in rets:
+        e = can.expr(r.value)
+        found.append(norm(e))
+        good = isinstance(e, ast.Call) and last_attr(e) == 'rescale' and len(e.args) == 1 \
+            and norm(e.func.value) == bvec_p
+        if good:
+            alts = e.args[0].args if (isinstance(e.args[0], ast.Call) and norm(e.args[0].func) == 'alt') \
+                else [e.args[0]]
+            texts = [norm(a) for a in alts]
+            table = [t for t in texts if t == 'self.bond_lengths[%s]' % elem_p]
+            other = [a for a, t in zip(alts, texts) if t not in table]
+            good = len(table) == 1 and all(isinstance(a, ast.Constant) and a.value == 1.0 for a in other)
+        ok = ok and good
     ctx.ob('C17.R1', 'set_bond_distance:rescale-to-table-length', ok,
-           'set_bond_distance rescales the vector to bond_lengths[element] (1.0 with a warning '
-           'for unknown elements)', pmod, sbd)
+           'set_bond_distance returns its vector rescaled to bond_lengths[element] (1.0 only as the '
+           'fallback for an element without entry); returns: %s' % found, pmod, sbd)
     bl = penv.get('self.bond_lengths')
     ok = isinstance(bl, dict) and all(e in bl and isinstance(bl[e], (int, float)) and 0.8 < bl[e] < 1.7
                                       for e in ('N', 'C', 'O', 'S'))
@@ -112,49 +153,103 @@ def run(ctx):
            pmod.func('Protonate.__init__'))
     va = prog.mod('vector_algebra')
     rs = va.func('Vector.rescale')
-    ok = 'frac = new_length / self.length()' in norm(rs) and \
-        'Vector(xi=self.x * frac, yi=self.y * frac, zi=self.z * frac)' in norm(rs)
+    can = canon(rs)
+    newlen = params_of(rs)[0]
+    rets = [r for r in walk_no_nested(rs) if isinstance(r, ast.Return) and r.value is not None]
+    ok = bool(rets)
+    for r in rets:
+        e = can.expr(r.value)
+        kws = {k.arg: k.value for k in e.keywords} if isinstance(e, ast.Call) else {}
+        good = isinstance(e, ast.Call) and norm(e.func) == 'Vector' and not e.args \
+            and sorted(kws) == ['xi', 'yi', 'zi']
+        for kw, comp in (('xi', 'x'), ('yi', 'y'), ('zi', 'z')):
+            good = good and mult_operands(kws.get(kw)) == sorted(
+                ['self.' + comp, '%s / self.length()' % newlen])
+        ok = ok and good
     ctx.ob('C17.R1', 'rescale:length', ok,
            'Vector.rescale multiplies every component by new_length / length', va, rs)
 
     # ------------------------------------------------------------------ R2
     ap = pmod.func('Protonate.add_proton')
-    src = norm(ap)
+    can = canon(ap)
+    atom, pos = params_of(ap)[:2]
+    new_defs = [s for s in walk_no_nested(ap) if isinstance(s, ast.Assign) and len(s.targets) == 1
+                and isinstance(s.targets[0], ast.Name) and isinstance(s.value, ast.Call)
+                and (call_name(s.value) or '').split('.')[-1] == 'Atom']
+    hvar = new_defs[0].targets[0].id if len(new_defs) == 1 else None
+    if hvar is None:
+        raise AnalysisError('C17.R2: add_proton does not create exactly one new Atom')
+    attr_stores = {}
+    for s in walk_no_nested(ap):
+        if isinstance(s, ast.Assign) and len(s.targets) == 1 and isinstance(s.targets[0], ast.Attribute) \
+                and norm(s.targets[0].value) == hvar:
+            attr_stores.setdefault(s.targets[0].attr, []).append(s)
+    bonded = attr_stores.get('bonded_atoms', [])
+    appends = [c for c in calls_in(ap, nested=False) if last_attr(c) == 'append'
+               and norm(c.func.value) == atom + '.bonded_atoms']
+    other_bond_writes = [c for c in calls_in(ap, nested=False)
+                         if last_attr(c) in ('append', 'extend', 'insert', 'remove')
+                         and norm(c.func.value) in (hvar + '.bonded_atoms',)]
     ctx.ob('C17.R2', 'add_proton:single-parent',
-           'new_h.bonded_atoms = [atom]' in src and 'atom.bonded_atoms.append(new_h)' in src,
-           'a new hydrogen is bonded to exactly its parent and the parent to it', pmod, ap)
+           len(bonded) == 1 and norm(bonded[0].value) == '[%s]' % atom
+           and len(appends) == 1 and [norm(a) for a in appends[0].args] == [hvar]
+           and not other_bond_writes,
+           'a new hydrogen is bonded to exactly its parent and the parent to it', pmod,
+           bonded[0] if bonded else ap)
+    coords = {}
+    for c in calls_in(ap, nested=False):
+        if last_attr(c) == 'set_property' and norm(c.func.value) == hvar:
+            for k in c.keywords:
+                if k.arg in ('x', 'y', 'z'):
+                    coords[k.arg] = can.text(k.value)
+    for comp in 'xyz':
+        for s in attr_stores.get(comp, []):
+            coords[comp] = can.text(s.value)
     ctx.ob('C17.R2', 'add_proton:rounded-to-0.001',
-           all(('%s=round(position.%s, 3)' % (a, a)) in src for a in 'xyz'),
-           'the three coordinates are rounded to 3 decimals (the rounding named in the property)',
-           pmod, ap)
+           all(coords.get(a) == 'round(%s.%s, 3)' % (pos, a) for a in 'xyz'),
+           'the three coordinates are rounded to 3 decimals (the rounding named in the property); '
+           'found %s' % coords, pmod, ap)
+    downs = [s for s in walk_no_nested(ap) if isinstance(s, ast.AugAssign)
+             and norm(s.target) == atom + '.number_of_protons_to_add']
+    elem = attr_stores.get('element', [])
     ctx.ob('C17.R2', 'add_proton:counts-down',
-           'atom.number_of_protons_to_add -= 1' in src and "new_h.element = 'H'" in src,
-           'each added hydrogen decrements the number still to add', pmod, ap)
-    ctx.ob('C17.R2', 'add_proton:enters-container', 'atom.conformation_container.add_atom(new_h)' in src,
+           len(downs) == 1 and isinstance(downs[0].op, ast.Sub) and try_fold(downs[0].value) == 1
+           and len(elem) == 1 and isinstance(elem[0].value, ast.Constant) and elem[0].value.value == 'H',
+           'each added hydrogen (element H) decrements the number still to add by one', pmod,
+           downs[0] if downs else ap)
+    enters = [c for c in calls_in(ap, nested=False) if last_attr(c) == 'add_atom'
+              and [norm(a) for a in c.args] == [hvar]
+              and norm(c.func.value) == atom + '.conformation_container']
+    ctx.ob('C17.R2', 'add_proton:enters-container', len(enters) == 1,
            'the hydrogen is added to the conformation of its parent', pmod, ap)
 
     # ------------------------------------------------------------------ R3a structure
     npa = pmod.func('Protonate.set_number_of_protons_to_add')
-    terms = counter_terms(npa, 'number_of_protons_to_add')
-    got = sorted((op, t) for op, t, _n in terms)
-    want = sorted([('=', '8'), ('-', 'self.valence_electrons[atom.element]'),
-                   ('-', 'len(atom.bonded_atoms)'), ('-', 'atom.num_pi_elec_2_3_bonds'),
-                   ('+', 'int(atom.charge)')])
-    ctx.ob('C17.R3', 'count:protons-formula', got == want,
-           'protons to add = 8 - valence - bonds - pi(2,3) + int(charge) (found %s)' % got, pmod, npa)
+    p_atom = params_of(npa)[0]
+    finals = canon(npa).final(p_atom + '.number_of_protons_to_add')
+    pform = None
+    if len(finals) == 1 and finals[0] is not None:
+        pform = linform(finals[0], count_atom_kind(p_atom))
+    want_p = {'1': 8, 'valence': -1, 'bonds': -1, 'pi23': -1, 'intcharge': 1}
+    ctx.ob('C17.R3', 'count:protons-formula', pform == want_p,
+           'protons to add = 8 - valence - bonds - pi(2,3) + int(charge) (found %s)' % (
+               pform if pform is not None else [norm(f) if f is not None else None for f in finals]),
+           pmod, npa)
     ssn = pmod.func('Protonate.set_steric_number_and_lone_pairs')
-    sterms = counter_terms(ssn, 'steric_number')
-    final = [t for t in sterms if t[0] == '=' and 'math.floor' in t[1]]
-    adds = sorted((op, t) for op, t, _n in sterms if not (op == '=' and 'math.floor' in t))
-    want_s = sorted([('=', '0'), ('+', 'self.valence_electrons[atom.element]'),
-                     ('+', 'len(atom.bonded_atoms)'), ('+', 'atom.number_of_protons_to_add'),
-                     ('-', 'atom.num_pi_elec_2_3_bonds'), ('-', 'atom.num_pi_elec_conj_2_3_bonds'),
-                     ('+', '0')])
-    ok = adds == want_s and len(final) == 1 and \
-        final[0][1].replace(' ', '') == 'math.floor((atom.steric_number-atom.charge)/2)'
-    ctx.ob('C17.R3', 'count:steric-formula', ok,
+    s_atom = params_of(ssn)[0]
+    sfinals = [f for f in canon(ssn).final(s_atom + '.steric_number') if f is not None]
+    sform = None
+    if len(sfinals) == 1:
+        f = sfinals[0]
+        # floor(<linear> / 2)
+        if isinstance(f, ast.Call) and norm(f.func) == 'math.floor' and len(f.args) == 1 \
+                and isinstance(f.args[0], ast.BinOp) and isinstance(f.args[0].op, ast.Div) \
+                and try_fold(f.args[0].right) == 2:
+            sform = linform(f.args[0].left, count_atom_kind(s_atom))
+    want_s = {'valence': 1, 'bonds': 1, 'protons': 1, 'pi23': -1, 'conj': -1, 'charge': -1}
+    ctx.ob('C17.R3', 'count:steric-formula', sform == want_s,
            'steric number = floor((valence + bonds + protons - pi(2,3) - pi(conj) - charge) / 2) '
-           '(found %s; %s)' % (adds, [t[1] for t in final]), pmod, ssn)
+           '(found %s)' % (sform if sform is not None else [norm(f) for f in sfinals]), pmod, ssn)
     init = pmod.func('Protonate.__init__')
     disp = {}
     for s in walk_no_nested(init):
@@ -166,8 +261,12 @@ def run(ctx):
            disp == {3: 'self.trigonal', 4: 'self.tetrahedral'},
            'steric number 3 -> trigonal, 4 -> tetrahedral (%s)' % disp, pmod, init)
     addp = pmod.func('Protonate.add_protons')
+    a_atom = params_of(addp)[0]
+    dcalls = [c for c in calls_in(addp, nested=False) if isinstance(c.func, ast.Subscript)
+              and norm(c.func.value) == 'self.protonation_methods']
     ctx.ob('C17.R3', 'dispatch:by-steric-number',
-           'self.protonation_methods[atom.steric_number](atom)' in norm(addp),
+           len(dcalls) == 1 and canon(addp).text(dcalls[0].func.slice) == a_atom + '.steric_number'
+           and [canon(addp).text(a) for a in dcalls[0].args] == [a_atom],
            'add_protons dispatches on atom.steric_number', pmod, addp)
     pa = pmod.func('Protonate.protonate_atom')
     seq = [last_attr(c) for c in calls_in(pa, nested=False) if norm(c.func).startswith('self.')]
@@ -179,14 +278,24 @@ def run(ctx):
     max_h = {}
     for qual, want_blocks in (('Protonate.trigonal', [1, 2]), ('Protonate.tetrahedral', [1, 2, 3])):
         fn = pmod.func(qual)
+        atom = params_of(fn)[0]
         blocks = []
         for s in fn.body:
-            if isinstance(s, ast.If) and isinstance(s.test, ast.BoolOp) and \
-                    'len(atom.bonded_atoms) ==' in norm(s.test) and \
-                    'atom.number_of_protons_to_add > 0' in norm(s.test) and not s.orelse:
-                k = try_fold(s.test.values[0].comparators[0])
-                n_add = sum(1 for c in calls_in(s) if last_attr(c) == 'add_proton')
-                blocks.append((k, n_add))
+            if isinstance(s, ast.If) and isinstance(s.test, ast.BoolOp) and isinstance(s.test.op, ast.And) \
+                    and not s.orelse:
+                k = None
+                remaining = False
+                for v in s.test.values:
+                    if isinstance(v, ast.Compare) and len(v.ops) == 1:
+                        lt, rt = norm(v.left), v.comparators[0]
+                        if lt == 'len(%s.bonded_atoms)' % atom and isinstance(v.ops[0], ast.Eq):
+                            k = try_fold(rt)
+                        if lt == atom + '.number_of_protons_to_add' and isinstance(v.ops[0], ast.Gt) \
+                                and try_fold(rt) == 0:
+                            remaining = True
+                if k is not None and remaining and len(s.test.values) == 2:
+                    n_add = sum(1 for c in calls_in(s) if last_attr(c) == 'add_proton')
+                    blocks.append((k, n_add))
         ctx.ob('C17.R3', 'blocks:' + qual, blocks == [(k, 1) for k in want_blocks],
                '%s has sequential (not elif) blocks for %s bonded atoms, each adding one hydrogen '
                'while protons remain, so an atom needing n hydrogens passes through n blocks '
@@ -210,20 +319,66 @@ def run(ctx):
     bonds = prog.protein_bonds()
     # charge key format
     sc = pmod.func('Protonate.set_charge')
-    ctx.ob('C17.R3', 'charge-key-format', "key = '{0:3s}-{1:s}'.format(atom.res_name, atom.name)" in norm(sc)
-           and 'key = atom.terminal' in norm(sc),
-           'standard charges are looked up by "RES-ATOM" (or the terminus tag)', pmod, sc)
+    c_atom = params_of(sc)[0]
+    can = canon(sc)
+    res_atom_3 = [('fld', c_atom + '.res_name', '3'), ('lit', '-'), ('fld', c_atom + '.name', '')]
+    ok_key = False
+    seen_keys = []
+    for st in walk_no_nested(sc):
+        if isinstance(st, ast.Assign) and norm(st.targets[0]) == c_atom + '.charge' \
+                and isinstance(st.value, ast.Subscript) \
+                and norm(st.value.value) == 'self.standard_charges':
+            k = can.expr(st.value.slice)
+            alts = k.args if isinstance(k, ast.Call) and norm(k.func) == 'alt' else [k]
+            seen_keys = [norm(a) for a in alts]
+            ok_key = any(str_template(a) == res_atom_3 for a in alts) and \
+                all(str_template(a) == res_atom_3 or norm(a) == c_atom + '.terminal' for a in alts)
+    ctx.ob('C17.R3', 'charge-key-format', ok_key,
+           'standard charges are looked up by "RES-ATOM" (or the terminus tag); found %s' % seen_keys,
+           pmod, sc)
     # pi tables are applied by the keys the count reads
-    bm = prog.mod('bonds').func('BondMaker.add_pi_electron_table_info')
-    src = norm(bm)
+    bmod = prog.mod('bonds')
+    bm = bmod.func('BondMaker.add_pi_electron_table_info')
+    can = canon(bm)
+    each_atom = 'each(%s)' % params_of(bm)[0]
+    res_atom = [('fld', each_atom + '.res_name', ''), ('lit', '-'), ('fld', each_atom + '.name', '')]
+    applied = {}
+    for st in walk_no_nested(bm):
+        if isinstance(st, ast.Assign) and isinstance(st.targets[0], ast.Attribute) \
+                and st.targets[0].attr in ('num_pi_elec_2_3_bonds', 'num_pi_elec_conj_2_3_bonds') \
+                and can.text(st.targets[0].value) == each_atom \
+                and isinstance(st.value, ast.Subscript) and norm(st.value.value).startswith('self.'):
+            table = norm(st.value.value)[5:]
+            kexp = can.expr(st.value.slice)
+            if str_template(kexp) == res_atom:
+                ktext = 'RES-ATOM'
+            elif norm(kexp) == each_atom + '.name':
+                ktext = 'NAME'
+            elif norm(kexp) == each_atom + '.sybyl_type':
+                ktext = 'SYBYL'
+            else:
+                ktext = norm(kexp)
+            extra = sorted(('' if pol else 'not ') + can.text(e) for e, pol in facts_at(st, bm)
+                           if 'bonded_atoms' in norm(e))
+            applied[table] = (st.targets[0].attr, ktext, tuple(extra))
+    want_applied = {
+        'num_pi_elec_bonds_sidechains': ('num_pi_elec_2_3_bonds', 'RES-ATOM', ()),
+        'num_pi_elec_conj_bonds_sidechains': ('num_pi_elec_conj_2_3_bonds', 'RES-ATOM', ()),
+        'num_pi_elec_bonds_backbone': ('num_pi_elec_2_3_bonds', 'NAME', ()),
+        'num_pi_elec_conj_bonds_backbone': ('num_pi_elec_conj_2_3_bonds', 'NAME',
+                                            ('len(%s.bonded_atoms) > 1' % each_atom,)),
+    }
     ctx.ob('C17.R3', 'pi-table-application',
-           "key = '{0:s}-{1:s}'.format(atom.res_name, atom.name)" in src
-           and 'atom.num_pi_elec_2_3_bonds = self.num_pi_elec_bonds_sidechains[key]' in src
-           and 'atom.num_pi_elec_conj_2_3_bonds = self.num_pi_elec_conj_bonds_sidechains[key]' in src
-           and 'atom.num_pi_elec_conj_2_3_bonds = self.num_pi_elec_conj_bonds_backbone[atom.name]' in src
-           and 'len(atom.bonded_atoms) > 1' in src,
+           all(applied.get(k) == v for k, v in want_applied.items()),
            'pi-electron tables are copied onto protein atoms by "RES-ATOM" key (backbone N only '
-           'when it has more than one neighbour)', prog.mod('bonds'), bm)
+           'when it has more than one neighbour); found %s' % {
+               k: applied.get(k) for k in want_applied}, bmod, bm)
+
+    if pform != want_p or sform != want_s:
+        # the formulas are not the ones the template arithmetic below evaluates;
+        # the violation is already recorded
+        ctx.note('templates_skipped', 'count formulas not recognised')
+        return
 
     def n_bonds(res, atom):
         if atom == 'N':
@@ -235,22 +390,14 @@ def run(ctx):
     def complement(res, atom):
         key = '%s-%s' % (res, atom)
         nb = n_bonds(res, atom)
-        env = {'valence': val['N'], 'nbonds': nb,
+        env = {'valence': val['N'], 'bonds': nb,
                'pi23': pi_sc.get(key, 0) if atom != 'N' else pi_bb.get('N', 0),
                'conj': cj_sc.get(key, 0) if atom != 'N' else (cj_bb.get('N', 0) if nb > 1 else 0),
                'charge': chg.get(key, 0.0)}
-        protons = 0
-        for op, t, _n in terms:
-            v = eval_term(t, env)
-            protons = v if op == '=' else (protons + v if op == '+' else protons - v)
+        env['intcharge'] = int(env['charge'])
+        protons = eval_form(pform, env)
         env['protons'] = protons
-        steric = 0
-        for op, t, _n in sterms:
-            if op == '=' and 'math.floor' in t:
-                steric = math.floor((steric - env['charge']) / 2)
-            else:
-                v = eval_term(t, env)
-                steric = v if op == '=' else (steric + v if op == '+' else steric - v)
+        steric = math.floor(eval_form(sform, env) / 2)
         return protons, steric, nb
 
     acid = module_constants(gmod, False).get('EXPECTED_ATOMS_ACID_INTERACTIONS')
@@ -287,40 +434,78 @@ def run(ctx):
            'amide 1, TRP 1, backbone 1)', gmod, gmod.tree)
 
     # ------------------------------------------------------------------ R4
-    def protonated(qual):
+    def setup_facts(qual):
+        """Canonical facts about a group's set-up: which atoms are protonated
+        (and whether unconditionally for every element of the iterable), and
+        which hydrogens reach set_interaction_atoms."""
         fn = gmod.func(qual)
-        return fn, [norm(c.args[0]) for c in calls_in(fn) if last_attr(c) == 'protonate_atom']
+        can = canon(fn)
+        prot = []
+        for c in calls_in(fn, nested=False):
+            if last_attr(c) != 'protonate_atom' or len(c.args) != 1:
+                continue
+            cond = False
+            cur = c._parent
+            loop = None
+            while cur is not fn:
+                if isinstance(cur, (ast.If, ast.While, ast.Try)):
+                    cond = True
+                if isinstance(cur, ast.For):
+                    if loop is None:
+                        loop = cur
+                    if any(isinstance(n, (ast.Break, ast.Continue)) for n in ast.walk(cur)):
+                        cond = True
+                cur = cur._parent
+            prot.append((can.text(c.args[0]), cond))
+        # hydrogens: canonical arguments of every get_bonded_elements('H') call whose
+        # result flows into set_interaction_atoms (directly or through an accumulator)
+        hyd = set()
+        accs = {}
+        for c in calls_in(fn, nested=False):
+            if last_attr(c) in ('extend', 'append') and isinstance(c.func.value, ast.Name) and c.args:
+                accs.setdefault(c.func.value.id, []).append(can.text(c.args[0]))
+        for c in calls_in(fn, nested=False):
+            if last_attr(c) != 'set_interaction_atoms' or not c.args:
+                continue
+            first = c.args[0]
+            texts = [can.text(first)]
+            for n in ast.walk(first):
+                if isinstance(n, ast.Name) and n.id in accs:
+                    texts.extend(accs[n.id])
+            for t in texts:
+                try:
+                    tree = ast.parse(t, mode='eval')
+                except SyntaxError:
+                    continue
+                for n in ast.walk(tree):
+                    if isinstance(n, ast.Call) and isinstance(n.func, ast.Attribute) \
+                            and n.func.attr == 'get_bonded_elements' and len(n.args) == 1 \
+                            and isinstance(n.args[0], ast.Constant) and n.args[0].value == 'H':
+                        hyd.add(norm(n.func.value))
+        return fn, prot, sorted(hyd)
 
-    def loop_over(fn, var):
-        """iter text of the unconditional loop that binds ``var`` around protonate_atom"""
-        for node in walk_no_nested(fn):
-            if isinstance(node, ast.For) and norm(node.target) == var and any(
-                    last_attr(c) == 'protonate_atom' for c in calls_in(node)) and not any(
-                        isinstance(n, (ast.If, ast.Break, ast.Continue)) for n in ast.walk(node)):
-                return norm(node.iter)
-        return None
-    fn, args = protonated('HISGroup.setup_atoms')
-    ctx.ob('C17.R4', 'HIS:protonates-ring', args == ['ring_atom'] and
-           loop_over(fn, 'ring_atom') == 'ring_atoms' and
-           "nitrogens = [ra for ra in ring_atoms if ra.element == 'N']" in norm(fn) and
-           "hydrogens.extend(nitrogen.get_bonded_elements('H'))" in norm(fn),
-           'HIS protonates every ring atom and collects the hydrogens of the ring nitrogens',
-           gmod, fn)
-    fn, args = protonated('ARGGroup.setup_atoms')
-    ctx.ob('C17.R4', 'ARG:protonates-CZ-nitrogens', args == ['nitrogen'] and
-           loop_over(fn, 'nitrogen') == 'nitrogens' and
-           "nitrogens = self.atom.get_bonded_elements('N')" in norm(fn) and
-           "hydrogens.extend(nitrogen.get_bonded_elements('H'))" in norm(fn),
-           'ARG protonates the nitrogens bonded to CZ and collects their hydrogens', gmod, fn)
-    fn, args = protonated('AMDGroup.setup_atoms')
-    ctx.ob('C17.R4', 'AMD:protonates-amide-N', args == ['the_nitrogen[0]'] and
-           "the_hydrogens = the_nitrogen[0].get_bonded_elements('H')" in norm(fn),
-           'the amide group protonates its nitrogen and collects its hydrogens', gmod, fn)
-    for qual in ('TRPGroup.setup_atoms', 'BBNGroup.setup_atoms'):
-        fn, args = protonated(qual)
-        ctx.ob('C17.R4', qual.split('.')[0] + ':protonates-own-atom', args == ['self.atom'] and
-               "self.atom.get_bonded_elements('H')" in norm(fn),
-               '%s protonates its own atom and collects its hydrogens' % qual.split('.')[0], gmod, fn)
+    ring = 'propka.ligand.is_ring_member(self.atom)'
+    ring_n = "[v1 for v1 in %s if v1.element == 'N']" % ring
+    cz_n = "self.atom.get_bonded_elements('N')"
+    cases4 = [
+        ('HISGroup.setup_atoms', 'HIS:protonates-ring', [('each(%s)' % ring, False)],
+         ['each(%s)' % ring_n],
+         'HIS protonates every ring atom and collects the hydrogens of the ring nitrogens'),
+        ('ARGGroup.setup_atoms', 'ARG:protonates-CZ-nitrogens', [('each(%s)' % cz_n, False)],
+         ['each(%s)' % cz_n],
+         'ARG protonates the nitrogens bonded to CZ and collects their hydrogens'),
+        ('AMDGroup.setup_atoms', 'AMD:protonates-amide-N', [(cz_n + '[0]', False)], [cz_n + '[0]'],
+         'the amide group protonates its nitrogen and collects its hydrogens'),
+        ('TRPGroup.setup_atoms', 'TRPGroup:protonates-own-atom', [('self.atom', False)], ['self.atom'],
+         'TRPGroup protonates its own atom and collects its hydrogens'),
+        ('BBNGroup.setup_atoms', 'BBNGroup:protonates-own-atom', [('self.atom', False)], ['self.atom'],
+         'BBNGroup protonates its own atom and collects its hydrogens'),
+    ]
+    for qual, key, want_prot, want_h, what in cases4:
+        fn, prot, hyd = setup_facts(qual)
+        # numbering of comprehension variables is local to each text
+        ctx.ob('C17.R4', key, prot == want_prot and hyd == want_h,
+               '%s (protonated: %s; hydrogens of: %s)' % (what, prot, hyd), gmod, fn)
     mapping_ok = True
     from sa.tables import Cfg
     cfg = Cfg(prog)
@@ -329,6 +514,8 @@ def run(ctx):
     ctx.ob('C17.R4', 'mapping:template-atoms', all(mp.get(k) == v for k, v in want_map.items()),
            'the defining atoms of these groups are the ones the templates assume (%s)'
            % {k: mp.get(k) for k in want_map}, gmod, gmod.tree)
+    # bond perception feeds the count: record type, residue or chain must not enter
+    common.check_pair_routine(ctx, 'C17.L1', prog.mod('bonds'))
     ctx.assume('distance-based bond perception reproduces the templates for residues with regular '
                'covalent geometry (C11 decides the perception rule, not the geometry)')
     ctx.assume('geometry (H-H separation >= 0.5 A, angles) and orientation independence are not '
